@@ -2,12 +2,14 @@
   Model of parse/rawtext.go `rawtext(s, trimBefore, trimAfter)`.
 
   The Go function decodes runes, but every test it performs on a rune compares it
-  with an ASCII value (space, tab, CR, LF, '<', '>', 0).  A multi-byte rune or an
+  with an ASCII value (space, tab, CR, LF, '<', '>') or with `noChar` (= -1, "no character",
+  the initial value of `lastChar` / `charBeforeTrim`; decoding never yields it).  A multi-byte rune or an
   invalid byte (RuneError, width 1) therefore always takes the "non-space,
   verbatim" path, whose effect is to copy bytes [lastpos,pos) unchanged.  The model
   works byte by byte; `lastChar` / `charBeforeTrim` hold the last byte of the last
-  rune instead of the rune, which is in the same class (0 / '<' / '>' / other)
-  because bytes >= 0x80 are "other" just like runes >= 0x80.  The correspondence
+  rune instead of the rune (`none` for `noChar`), which is in the same class ('<' / '>' / other)
+  because bytes >= 0x80 are "other" just like runes >= 0x80.  (Until /repo 4eb5547 the mark for
+  "no neighbour" was rune 0, so a NUL in the text counted like '<' and '>'.)  The correspondence
   check exercises multi-byte and invalid sequences to validate this abstraction.
 
   Index arithmetic is kept literal: the Go code copies `s[i]` for
@@ -22,7 +24,12 @@ namespace SoyVerif.Model
 def isSpace (b : UInt8) : Bool := b == 32 || b == 9
 def isEndOfLine (b : UInt8) : Bool := b == 13 || b == 10
 def isSpaceEOL (b : UInt8) : Bool := isSpace b || isEndOfLine b
-def isTightJoiner (b : UInt8) : Bool := b == 0 || b == 60 || b == 62
+/-- `isTightJoiner(r)` on a character of the text: '<' or '>' -/
+def isTightJoiner (b : UInt8) : Bool := b == 60 || b == 62
+/-- `isTightJoiner` on `lastChar` / `charBeforeTrim`: `none` is `noChar`, a tight joiner -/
+def isTightJoinerO : Option UInt8 → Bool
+  | none => true
+  | some b => isTightJoiner b
 
 /-- The Go loop `for i := lo; i < hi; i++ { … = s[i] }` with Go's bounds checks
     (`lo` may be negative): `none` = index out of range panic. -/
@@ -39,8 +46,8 @@ def pushOut (cap : Nat) (out add : Bytes) : Option Bytes :=
 structure RTState where
   spaces : Nat
   seenNewline : Bool
-  lastChar : UInt8
-  charBeforeTrim : UInt8
+  lastChar : Option UInt8          -- `none` = noChar
+  charBeforeTrim : Option UInt8
   out : Bytes            -- result[:resultLen]
   deriving Repr
 
@@ -55,7 +62,7 @@ def rtStep (s : Bytes) (lastpos : Nat) (r : UInt8) (st : RTState) : Option RTSta
             let run ← copyRange s ((lastpos : Int) - st.spaces) lastpos
             let out ← pushOut s.length st.out run
             pure { st with out := out, spaces := 0 }
-         else if !isTightJoiner st.charBeforeTrim && !isTightJoiner r then do
+         else if !isTightJoinerO st.charBeforeTrim && !isTightJoiner r then do
             let out ← pushOut s.length st.out [32]
             pure { st with out := out, spaces := 0 }
          else pure { st with spaces := 0 })
@@ -66,7 +73,7 @@ def rtStep (s : Bytes) (lastpos : Nat) (r : UInt8) (st : RTState) : Option RTSta
       pure { st1 with seenNewline := nl, spaces := 1, charBeforeTrim := st1.lastChar }
     else do
       let out ← pushOut s.length st1.out [r]
-      pure { st1 with seenNewline := nl, out := out, lastChar := r }
+      pure { st1 with seenNewline := nl, out := out, lastChar := some r }
 
 def rtLoop (s : Bytes) (trimAfter : Bool) : (rest : Bytes) → (pos : Nat) → RTState → Option Bytes
   | [], pos, st =>
@@ -80,7 +87,7 @@ def rtLoop (s : Bytes) (trimAfter : Bool) : (rest : Bytes) → (pos : Nat) → R
 
 def rtInit (trimBefore : Bool) : RTState :=
   { spaces := if trimBefore then 1 else 0, seenNewline := trimBefore,
-    lastChar := 0, charBeforeTrim := 0, out := [] }
+    lastChar := none, charBeforeTrim := none, out := [] }
 
 /-- `none` = the Go code would panic with an index out of range. -/
 def rawtext (s : Bytes) (trimBefore trimAfter : Bool) : Option Bytes :=
